@@ -25,6 +25,7 @@ FUNCTIONS['bdd'] = ['find_isomorph', 'BDDNode.__reset__', 'BDDNonTerminalNode.__
 FUNCTIONS['bddops'] = ['BDDNonTerminalNode.__invert__', 'BDDTerminalNode.__invert__', 'cache_restrict', 'compute_restrict',
                        'apply', 'compute', 'BDDsons_and_BDD', 'BDD_and_BDDsons', 'BDDsons_and_BDDsons']
 FUNCTIONS['bddops'] += ['BDDTerminalNode.__reset__', 'BDDTerminalNode.__new__']
+FUNCTIONS['bddops'] += ['BDDNode.restrict', 'OBDD.restrict']
 FUNCTIONS['bddops'] += ['OBDD.__init__', 'OBDD.apply', 'OBDD.__and__', 'OBDD.__or__', 'OBDD.__xor__', 'OBDD.__invert__']
 PROPERTY_FUNCTIONS = {
     'C10': ['Parser.__call__'],
@@ -88,7 +89,7 @@ TRUSTED = {
             '__invert__, cache_restrict/compute_restrict respect an ordering then so does the result, and no variable before the tops of all operands is at or after the top of the result; '
             'in_order(x, y) is modelled as position(x) < position(y) (ListOrdering.cmp; FunctionOrdering is not covered); reducedness (distinct children) is part of the table invariant (C16)',
             'NOT under proof (bounded only): orderedness at the OBDD-wrapper level (equal orderings are different objects; respect_ordering is uninterpreted), variables(), '
-            'OBDD.restrict / BDDNode.restrict\'s argument normalisation, the expression parser, garbage collection (TB7)',
+            'the expression parser, garbage collection (TB7); BDDNode.restrict / OBDD.restrict are under proof for a Boolean value and a variable name for which isinstance(var, str) is an uninterpreted predicate (TypeError iff it is false)',
             'apply/compute may raise RuntimeError ("Unsupported configuration") when the ordering relates the two variables in no direction; the contract allows it without saying when'],
     'C02': ['only the wrapper LTL.modelcheck (object formula A g, F=None) is under proof: result = states all of whose paths satisfy g, GIVEN the assumed '
             'contract of _checkE_path_formula (result = states with some path satisfying the restricted formula) and the proved contracts of LNot / rewriting; '
